@@ -132,6 +132,8 @@ CrfCases ==
         \cup { Case("aaf-field-" \o f[1], md, 0, 0, AafHdr(Replace(AafGood(24, 2, 0), f[1], f[2])) \o Bytes(24, 6)) :
                  f \in { <<"tv", 0>>, <<"nsr", 1>>, <<"stream_data_length", 0>>, <<"channels_per_frame", 8>>, <<"sequence_num", 200>> } }
         \cup { Case("subtype", md, 0, 0, Set2(sz, 0, "CommonHeader", "subtype", st)) : st \in {0, 3, 5, 130, 255}, sz \in {crf, aaf} }
+        \* a well-formed AAF PDU whose presentation time is not a value the recovered (or free-wheeling) media clock ever takes
+        \cup { Case("aaf-timestamp-off-media-clock-grid", md, 0, 0, AafHdr(AafGood(24, 2, 0) \o << <<"avtp_timestamp", t>> >>) \o Bytes(24, 6)) : t \in {1, 7, 125001, 2147483647} }
     : md \in {0, 1} }
 
 HelloCases ==
@@ -160,6 +162,7 @@ VssCases ==
     IN  { Case("good-static-float", udp, 0, 0, good) }
         \cup { Case("interop-path", udp, 0, 0, W(VssMsg(0, 9, path, fl))) }
         \cup { Case("interop-empty-path", udp, 0, 0, W(VssMsg(0, 9, << >>, fl))) }
+        \cup { Case("good-interop-long-path", udp, 0, 0, W(VssMsg(0, 9, Bytes(1400, 7), fl))) }
         \cup { Case("reserved-addr-mode", udp, 0, 0, W(Set2(VssMsg(1, 9, <<0, 0, 0, 42>>, fl), 0, "Vss", "addr_mode", am))) : am \in {2, 3} }
         \cup { Case("datatype-" \o ToString(dt), udp, 0, 0, W(VssMsg(1, dt, <<0, 0, 0, 42>>, Bytes(ElemSize(dt), 1)))) : dt \in {0, 6, 10} }
         \cup { Case("variable-datatype-" \o ToString(dt), udp, 0, 0, W(VssMsg(1, dt, <<0, 0, 0, 42>>, Bytes(8, 3)))) : dt \in {11, 128, 130, 138, 139} }
